@@ -244,6 +244,10 @@ def gen(rng, tier):
             complete = room >= max(hdrlen, 7)
             pusi = 0 if rng.random() < 0.1 else 1
             pkt = mk_pkt(pusi, afc, aflen, pay, rng)
+            if rng.random() < 0.12:
+                # a packet value that does not carry the sync byte (zero value / struct literal filled in by the setters, none of
+                # which writes byte 0): the accessors do not look at byte 0 (seeded C11-u1: a sync-byte guard in packet.PESHeader)
+                pkt = bytes([rng.choice([0x00, 0x00, 0xFF, 0x46])]) + bytes(pkt[1:])
             l1 = "pes.pkt " + hx(pkt)
             EXPECT[l1] = expected_pkt(pusi, afc, aflen, pkt)
             out.append(Case(l1, kind="pkt-pes-header", theorem="C11_pkt_pes_header_iff", proj=proj_pkt))
